@@ -63,6 +63,9 @@ Proof.
   - rewrite int_of_IZR. reflexivity.
 Qed.
 
+Lemma powR_Qint x n : powR x (Q2R (n # 1)) = powerRZ x n.
+Proof. replace (Q2R (n # 1)) with (IZR n) by (unfold Q2R; simpl; field). apply powR_int. Qed.
+
 Lemma powR_2 x : powR x 2 = x * x.
 Proof. change 2 with (IZR 2). rewrite powR_int. simpl. ring. Qed.
 
@@ -509,3 +512,5 @@ Lemma sgn_pos a : 0 < a -> sgn a = 1.
 Proof. intros H. unfold sgn. destruct (Rlt_dec 0 a); [reflexivity|contradiction]. Qed.
 Lemma sgn_neg a : a < 0 -> sgn a = -1.
 Proof. intros H. unfold sgn. destruct (Rlt_dec 0 a); [lra|]. destruct (Rlt_dec a 0); [reflexivity|contradiction]. Qed.
+Lemma Q2R_int_plus n m : Q2R (n # 1) + Q2R (m # 1) = Q2R ((n + m) # 1).
+Proof. unfold Q2R. simpl. rewrite plus_IZR. field. Qed.
